@@ -487,6 +487,9 @@ pub fn run(ctx: &mut Ctx) {
                 }
                 ctx.report.nontrivial(&format!("enum|{}|{}", f.name(), nd.canon()));
                 ctx.report.sample(|| J::obj().set("model", "enum").set("format", f.name()).set("value", nd.canon()));
+                if ctx.report.evaluations % 4 == 0 {
+                    something_fails_first((ctx.report.evaluations / 4) as usize);
+                }
                 if let Some(w) = enum_laws(f, &nd) {
                     let small = crate::shrink::shrink_nd(&nd, &mut |c| enum_laws(f, c).is_some(), 200);
                     let w2 = enum_laws(f, &small).unwrap_or(w);
@@ -505,6 +508,9 @@ pub fn run(ctx: &mut Ctx) {
                 ctx.report.eval();
                 ctx.report.bump(&format!("lexical.{}", f.name()));
                 ctx.report.nontrivial(&format!("lex|{}|{}", f.name(), lexgen::lex_canon(&x)));
+                if ctx.report.evaluations % 4 == 0 {
+                    something_fails_first((ctx.report.evaluations / 4) as usize);
+                }
                 if let Some(w) = lex_laws(f, &x) {
                     report(
                         ctx,
